@@ -565,10 +565,16 @@ func (c *Ctx) ruleImportResolution() {
 				quals[P.Desc(st.Val)] = true
 			}
 		})
+		// the flag starts out false when the annotation is a freshly allocated struct of this function: the two
+		// "false" cases then need no assignment
+		fresh := true
 		allInstrs(pf, func(b *ssa.BasicBlock, ins ssa.Instruction) {
 			st, ok := ins.(*ssa.Store)
 			if !ok || !fieldOf(st, "PackageNotFound") {
 				return
+			}
+			if a, isA := st.Addr.(*ssa.FieldAddr).X.(*ssa.Alloc); !isA || a.Parent() != pf {
+				fresh = false
 			}
 			// every way the stored flag is computed - in place or by a helper - with the conditions of that way
 			for _, vc := range P.ValueCases(st.Val, 0) {
@@ -605,6 +611,9 @@ func (c *Ctx) ruleImportResolution() {
 			}
 		})
 		sawTrue = sawTrue && allOK
+		if fresh && sawTrue {
+			sawFalseFound, sawFalseLocal = true, true
+		}
 		c.check(sawTrue && sawFalseFound && sawFalseLocal, "IMPL01-WHEN", "annotations.parseImplementsAnnotation", P.Pos(pf.Pos()), "PackageNotFound iff a qualifier is given and imports.Find(qualifier) == nil", fmt.Sprintf("PackageNotFound is not set exactly when a given qualifier is unresolved [true-case:%v found-case:%v local-case:%v]", sawTrue, sawFalseFound, sawFalseLocal))
 	}
 }
